@@ -80,6 +80,19 @@ def Doc.events (d : Doc) : List Ev := d.pre.events ++ d.root.events ++ d.post.ev
 
 def docEvents (root : Node) : List Ev := root.events ++ [.eof]
 
+/-- the events of an input consisting of the items `is` at top level -/
+def fragEvents (is : Items) : List Ev := is.events ++ [.eof]
+
+def Items.append : Items → Items → Items
+  | .nil, b => b
+  | .elem n r, b => .elem n (r.append b)
+  | .text c r, b => .text c (r.append b)
+  | .other r, b => .other (r.append b)
+
+/-- the top-level items of a document: prolog, root, epilog -/
+def Doc.items (d : Doc) : Items := d.pre.append (.elem d.root d.post)
+
+
 /-- the schema of one position: text flag, attributes, child kinds (ordered lists) -/
 inductive Schema where
   | mk (text : Bool) (attrs : List (Nec × Name)) (kids : List (Name × Nec × Bool × Schema))
